@@ -47,8 +47,22 @@ pub fn ladder_family(ctx: &mut Ctx) {
         if need_i == 0 {
             continue;
         }
+        // two operands large at once (cooperating operands), at a magnitude where the unchanged
+        // code is still cheap: encoded as position 100*p+q
+        let mut cases: Vec<(usize, i32)> = vec![];
         for pos in 0..need_i {
             for rung in ladder() {
+                cases.push((pos, rung));
+            }
+        }
+        for p1 in 0..need_i {
+            for p2 in (p1 + 1)..need_i {
+                cases.push((100 * (p1 + 1) + p2, 1000));
+                cases.push((100 * (p1 + 1) + p2, 100));
+            }
+        }
+        for (pos, rung) in cases {
+            {
                 let id = match ctx.take() {
                     Some(id) => id,
                     None => continue,
@@ -69,7 +83,12 @@ pub fn ladder_family(ctx: &mut Ctx) {
                 }
                 // small, pairwise distinct, descending from the top (so that e.g. INTVECTOR.RAND gets min < max)
                 m0.i = (0..need_i).map(|k| 2 + (need_i - k) as i32).collect();
-                m0.i[pos] = rung;
+                if pos >= 100 {
+                    m0.i[pos / 100 - 1] = rung;
+                    m0.i[pos % 100] = rung;
+                } else {
+                    m0.i[pos] = rung;
+                }
                 m0.i.push(77);
                 ctx.crumb(id, &format!("{}|{}|{}", name, pos, rung));
                 let before = with_instr(&m0, name);
